@@ -99,6 +99,21 @@ func startWatchdog(limit time.Duration) {
 
 func register(id string, p Prop) { props[id] = p }
 
+// RowGenProp: histories whose inputs are chosen by the specification (rows printed by a Gen_* module).
+type RowGenProp interface {
+	GenRows(rows []Ev, tier string, seed int64, emit func([]Ev))
+}
+
+type rowGenAdapter struct {
+	Prop
+	rg   RowGenProp
+	rows []Ev
+}
+
+func (a rowGenAdapter) Gen(tier string, seed int64, emit func([]Ev)) {
+	a.rg.GenRows(a.rows, tier, seed, emit)
+}
+
 type Summary struct {
 	Prop      string         `json:"prop"`
 	Tier      string         `json:"tier"`
@@ -138,6 +153,15 @@ func main() {
 	fs.Parse(os.Args[3:])
 	switch cmd {
 	case "gen":
+		if *in != "" {
+			// histories derived from rows a TLC generator printed (B2: model-chosen inputs)
+			rg, ok := p.(RowGenProp)
+			if !ok {
+				die("property %s cannot generate histories from rows", id)
+			}
+			rows := readEvents(*in)
+			p = rowGenAdapter{Prop: p, rg: rg, rows: rows}
+		}
 		doGen(id, p, *tier, *seed, *out, *shards)
 	case "replay":
 		doReplay(p, *in, *out)
